@@ -424,11 +424,11 @@ impl Context<'_> {
             .await?;
         self.charge(ids.len())?;
 
-        if !self.is_historical() {
-            return Ok(ids);
-        }
-        // At a coordinate the index could not narrow, so the slot is matched
-        // against the historical rows.
+        // Every candidate goes through `load`, now as well as at a coordinate:
+        // the index answers for the whole Space, and a Proposition this caller
+        // may not read is not a candidate value of the slot for it — listing
+        // its id with an `insufficient` projection says that it exists (§104).
+        // The same pass matches the slot where the index could not narrow.
         let mut slot = Vec::new();
         for id in ids {
             if let Some(Element::Proposition(row)) = self.load(id).await?
